@@ -2,7 +2,7 @@
    Statements only; proofs in Proofs/SliceProofs.v.  Integer ticks; full_score = every chord has at least one
    part and every part lasts as long as its chord (the statement's guard), durations >= 0. *)
 From ML Require Import Spec.RenderSpec.
-From ML Require Import Model.Types gen.Tables Model.Pitch Model.Rel Model.Render Model.Slice Proofs.RenderProofs Proofs.SliceProofs Proofs.SliceContent Proofs.SliceRejoin.
+From ML Require Import Model.Types gen.Tables Model.Pitch Model.Rel Model.Render Model.Slice Proofs.RenderProofs Proofs.SliceProofs Proofs.SliceContent Proofs.SliceRejoin Proofs.SliceScore.
 From Coq Require Import Lia.
 Open Scope Z_scope.
 Open Scope list_scope.
@@ -66,6 +66,38 @@ Proof. exact windows_rejoin. Qed.
 Theorem C12_rejoin_sounds_the_same : forall c v time a t b tail ref, positive v -> a <= time -> time + part_dur v <= b ->
   sounding ref (part_items (clip_list v time a t ++ clip_list v time t b) c time ++ tail) = sounding ref (part_items v c time ++ tail).
 Proof. exact rejoin_sounds_the_same. Qed.
+
+(* AT SCORE LEVEL.  The timeline of a part pairs each of its notes with the chord it is written under, chord after chord.
+   For a score whose chords have parts with positive note lengths, and a (non-drum) part present in every chord and lasting
+   each: the timeline of the part in the window [a, b) is the clip of its timeline in the score - the notes overlapping [a, b),
+   cut to the window, a note already sounding at a becoming a continuation, each kept note under its own chord *)
+Theorem C12_score_window_content : forall track s t a b w, String.prefix "drums" track = false ->
+  clean_score s track -> a < b -> score_between s t a b = Some w -> tl w track = cclip (tl s track) t a b.
+Proof. intros track s t a b w Hd. exact (score_between_timeline track Hd s t a b w). Qed.
+
+Theorem C12_score_window_notes : forall track s a b w, String.prefix "drums" track = false -> clean_score s track -> a < b ->
+  score_between s 0 a b = Some w ->
+  map snd (tl w track) = clip_list (map snd (tl s track)) 0 a b /\ incl (map fst (tl w track)) (map fst (tl s track)).
+Proof. intros track s a b w. exact (score_between_notes track s a b w). Qed.
+
+(* cutting a score at any time t inside it and putting the two pieces one after the other: the duration is the original's and
+   every part present throughout SOUNDS exactly as before - the sounding notes of the Spec of C03 (pitch under its chord, onset,
+   duration with the continuations, velocity), whichever note or chord boundary t falls on or in *)
+Theorem C12_score_rejoin : forall track s t, String.prefix "drums" track = false -> full_score s -> clean_score s track ->
+  0 < t < score_dur s ->
+  exists w1 w2, score_between s 0 0 t = Some w1 /\ score_between s 0 t (score_dur s) = Some w2 /\
+    score_dur (w1 ++ w2) = score_dur s /\ sounding_of (w1 ++ w2) track = sounding_of s track.
+Proof. exact score_rejoin. Qed.
+
+Example C12_ex_score_rejoin :
+  let nt k v du := mkTN (mkP k Abs v 0 None None) du 66 in
+  let s := [mkRC (mkC 0 (bare "") (mkT 0 MMaj 0) 0) [("p"%string, [nt KS 0 2; nt KS 1 2])];
+            mkRC (mkC 4 (bare "") (mkT 0 MMaj 0) 0) [("p"%string, [nt KS 2 3])]] in
+  (do w1 <- score_between s 0 0 3 ;; do w2 <- score_between s 0 3 7 ;; Some (map (fun c => map (fun n => (pkind (tn n), tdur n)) (part_of "p" c)) (w1 ++ w2)))
+    = Some [[(KS, 2); (KS, 1)]; [(KL, 1)]; [(KS, 3)]] /\
+  (do w1 <- score_between s 0 0 3 ;; do w2 <- score_between s 0 3 7 ;; sounding_of (w1 ++ w2) "p") = sounding_of s "p" /\
+  sounding_of s "p" = Some [mkSN 0 0 2 66; mkSN 2 2 2 66; mkSN 11 4 3 66].
+Proof. exact score_rejoin_ex. Qed.
 
 (* non-vacuity *)
 Example C12_ex :
